@@ -51,6 +51,7 @@ def build(cls, M, variant, rng):
         m = F.PSK(M, float(rng.uniform(-4, 4))) if variant == 1 else F.PSK(M)
     if variant == 2:
         for _ in range(int(rng.integers(1, 4))):
+            _ = m.K, m.calcTheoreticalSpectralEfficiency(3.0, 10)   # used in between
             m.setPhaseOffset(float(rng.uniform(-4, 4)))
     return m
 
